@@ -103,14 +103,22 @@ def r1(fx):
     md, lv = modes(fx), levels(fx)
     it = Interp(max_steps=20_000_000)
     hz = C(fx, 'HANZI_ENCODING')
-    for mode, enc, req_enc in (('byte', 'utf-8', None), ('byte', 'cp1252', 'cp1252'), ('alphanumeric', None, None),
-                               ('kanji', None, None), ('hanzi', None, None), ('hanzi', None, 'utf-8')):
-        for k in (1, 2, 3, 7, 16):
+    digits = ''.join(str((7 * i + 3) % 10) for i in range(97))
+    cases = [(CONTENT, 'str', mode, enc, req_enc) for mode, enc, req_enc in (
+        ('byte', 'utf-8', None), ('byte', 'cp1252', 'cp1252'), ('alphanumeric', None, None), ('kanji', None, None), ('hanzi', None, None),
+        ('hanzi', None, 'utf-8'))]
+    # the other documented content types: bytes (digits and arbitrary), non-negative and negative integers
+    cases += [(digits.encode(), 'bytes', 'numeric', None, None), (bytes(range(1, 98)), 'bytes', 'byte', 'iso-8859-1', None),
+              (int('9' + digits[1:]), 'int', 'numeric', None, None), (-int('9' + digits[1:]), 'negative int', 'alphanumeric', None, None),
+              (digits, 'str', 'numeric', None, None)]
+    for CONTENT_, ctype, mode, enc, req_enc in cases:
+        for k in ((1, 2, 3, 7, 16) if ctype == 'str' and mode != 'numeric' else (2, 7)):
             def cv(chunk):
-                return 3 + (ord(chunk[0]) % 5)     # versions differ between chunks
-            res, rec = _run(fx, it, CONTENT, mode, enc, fit_single=None, chunk_version=cv, symbol_count=k, error='m',
+                return 3 + ((chunk[0] if isinstance(chunk[0], int) else ord(chunk[0])) % 5)     # versions differ between chunks
+            res, rec = _run(fx, it, CONTENT_, mode, enc, fit_single=None, chunk_version=cv, symbol_count=k, error='m',
                             encoding=req_enc, mode=mode if mode == 'hanzi' else None, boost_error=False)
-            key = f'{mode}/{enc or req_enc} symbol_count={k}'
+            key = f'{mode}/{enc or req_enc} symbol_count={k}' + ('' if ctype == 'str' and mode != 'numeric' else f' ({ctype} content)')
+            whole = CONTENT_ if isinstance(CONTENT_, (str, bytes)) else str(CONTENT_)
             if not isinstance(res, list):
                 yield ob(key, False, fn, got=res, want=f'{k} symbols')
                 continue
@@ -120,8 +128,8 @@ def r1(fx):
             probs = []
             if len(res) != k:
                 probs.append(f'{len(res)} symbols')
-            if ''.join(c for c in chunks if isinstance(c, str)) != CONTENT:
-                probs.append('chunks do not concatenate to the content')
+            if not all(isinstance(c, type(whole)) for c in chunks) or type(whole)().join(chunks) != whole:
+                probs.append(f'chunks do not concatenate to the content: {[str(c)[:8] for c in chunks[:2]]}')
             if chunks and max(map(len, chunks)) - min(map(len, chunks)) > 1:
                 probs.append('chunk lengths differ by more than one')
             if any(e['mode'] != md[mode] for e in enc_calls):
@@ -139,7 +147,7 @@ def r1(fx):
             fvs = [x for x in rec['find_version'] if not isinstance(x[0], tuple)]
             if sorted(x[0] for x in fvs) != sorted(chunks) or any((x[3], x[4]) != (False, True) for x in fvs) or any(x[1] != lv['M'] for x in fvs):
                 probs.append(f'fit search not per chunk with micro=False, is_sa=True, level M: {fvs[:2]}')
-            if rec['parity'] != [(CONTENT, want_enc)]:
+            if rec['parity'] != [(whole, want_enc)] and rec['parity'] != [(CONTENT_, want_enc)]:
                 probs.append(f'parity computed over {[(str(c)[:6], e) for c, e in rec["parity"]]}, chunks use {want_enc}')
             if any((e['error'], e['boost_error'], e['eci']) != (lv['M'], False, False) for e in enc_calls):
                 probs.append('error/boost/eci not passed through')
